@@ -167,8 +167,8 @@ theorem isWild_of_nameClass {n : String} (h : nameClass n = .wild) :
 
 def expMap (pp sp : Path) (name : String) : AstMap := { pairMap pp sp with exps := [(name, sp)] }
 
-theorem deepPre_done {cm : Bool} {pp sp : Path} {p s : T} {r : List AstMap}
-    (h : deepPre cm pp p sp s = .done r) : ∀ m ∈ r,
+theorem deepPre_done {cm : Bool} {pf : String} {pp sp : Path} {p s : T} {r : List AstMap}
+    (h : deepPre cm pf pp p sp s = .done r) : ∀ m ∈ r,
       (m = pairMap pp sp ∧ role p = .wildcard) ∨
       (∃ name, m = expMap pp sp name ∧ role p = .expPh name) := by
   intro m hm
@@ -229,8 +229,8 @@ theorem deepPre_done {cm : Bool} {pp sp : Path} {p s : T} {r : List AstMap}
             · cases h
       · cases h
 
-theorem deepPre_generic {cm : Bool} {pp sp : Path} {p s : T} {ig : List String}
-    (h : deepPre cm pp p sp s = .generic ig) :
+theorem deepPre_generic {cm : Bool} {pf : String} {pp sp : Path} {p s : T} {ig : List String}
+    (h : deepPre cm pf pp p sp s = .generic ig) :
     (ig = [] ∨ (ig = ["ctx"] ∧ p.kind = "Name")) ∧ flexOp p = false ∧
       (∀ k, role p = .expPh k → p.kind = "Name") := by
   simp only [deepPre] at h
@@ -309,8 +309,8 @@ theorem deepPre_generic {cm : Bool} {pp sp : Path} {p s : T} {ig : List String}
         intro k hr
         exact absurd hr (role_not_exp_of_kind hnn hne k)
 
-theorem deepPre_binflex {cm : Bool} {pp sp : Path} {p s : T}
-    (h : deepPre cm pp p sp s = .binflex) : p.kind = "BinOp" ∧ flexOp p = true := by
+theorem deepPre_binflex {cm : Bool} {pf : String} {pp sp : Path} {p s : T}
+    (h : deepPre cm pf pp p sp s = .binflex) : p.kind = "BinOp" ∧ flexOp p = true := by
   simp only [deepPre] at h
   split at h
   · cases hc : nameClass (p.strAttr "id") <;> simp only [hc] at h
@@ -423,7 +423,7 @@ structure StGood (b : AstMap) (pp : Path) (i : Nat) : Prop where
   noconf : b.conflicts = []
 
 theorem deepKids_good (cm : Bool) (ig : List String) (pp sp : Path) (s : T) (rest : List T)
-    (hIH : ∀ c ∈ rest, ∀ cm pp sp s, ∀ m ∈ deep cm pp c sp s, Good m pp c sp s) :
+    (hIH : ∀ c ∈ rest, ∀ cm pf pp sp s, ∀ m ∈ deep cm pf pp c sp s, Good m pp c sp s) :
     ∀ (i : Nat) (st : List (AstMap × Nat)) (y : Nat), (∀ x ∈ st, StGood x.1 pp i) →
       ∀ m ∈ deepKids cm ig pp i rest sp s st y, ∃ x ∈ st, LoopRes m x ig pp i rest sp s := by
   induction rest with
@@ -450,7 +450,7 @@ theorem deepKids_good (cm : Bool) (ig : List String) (pp sp : Path) (s : T) (res
         rcases hr.exps kv hkv with h | h
         · exact Or.inl h
         · right; rw [expSomewhereL]; simp [h]
-    · cases hmm : mapMerge st (candsFrom (fun j sj => deep cm (pp ++ [i]) pc (sp ++ [j]) sj) y 0 s.kids) with
+    · cases hmm : mapMerge st (candsFrom (fun j sj => deep cm pc.field (pp ++ [i]) pc (sp ++ [j]) sj) y 0 s.kids) with
       | none => simp [hmm] at hm
       | some res =>
         obtain ⟨st', y'⟩ := res
@@ -565,11 +565,11 @@ theorem good_expMap {pp sp : Path} {p s : T} {name : String} (hr : role p = .exp
     | mk k f fl ks =>
       rw [expSomewhere]; simp [hr, expMap, pairMap, dictGet]
 
-theorem good_generic {cm : Bool} {ig : List String} {pp sp : Path} {k f : String} {fl : List Fld}
+theorem good_generic {cm : Bool} {pf : String} {ig : List String} {pp sp : Path} {k f : String} {fl : List Fld}
     {kids : List T} {s : T} {b : AstMap}
-    (hpre : deepPre cm pp (.mk k f fl kids) sp s = .generic ig)
-    (hsh : shallowMatch cm pp (.mk k f fl kids) sp s = some b)
-    (hIH : ∀ c ∈ kids, ∀ cm pp sp s, ∀ m ∈ deep cm pp c sp s, Good m pp c sp s) :
+    (hpre : deepPre cm pf pp (.mk k f fl kids) sp s = .generic ig)
+    (hsh : shallowMatch cm pf pp (.mk k f fl kids) sp s = some b)
+    (hIH : ∀ c ∈ kids, ∀ cm pf pp sp s, ∀ m ∈ deep cm pf pp c sp s, Good m pp c sp s) :
     ∀ m ∈ deepKids cm ig pp 0 kids sp s [(b, 0)] 0, Good m pp (.mk k f fl kids) sp s := by
   intro m hm
   have sg := shallowMatch_good hsh
@@ -625,11 +625,11 @@ theorem good_generic {cm : Bool} {ig : List String} {pp sp : Path} {k f : String
     · exact Or.inr h
 
 theorem good_binflex {pp sp : Path} {k f : String} {fl : List Fld} {l op r : T} {s sop sjl sjr : T}
-    {b o lm rm m : AstMap} {jl jr : Nat}
+    {b o lm rm m : AstMap} {jl jr : Nat} {cm : Bool} {pf pfo : String}
     (hkind : k = "BinOp") (hflex : flexOp (.mk k f fl [l, op, r]) = true)
     (hopk : op.kind = "Add" ∨ op.kind = "Mult") (hleaf : op.kids = [])
-    (hb : ShallowGood b false pp (.mk k f fl [l, op, r]) sp s)
-    (ho : ShallowGood o true (pp ++ [1]) op (sp ++ [1]) sop)
+    (hb : ShallowGood b cm pf pp (.mk k f fl [l, op, r]) sp s)
+    (ho : ShallowGood o true pfo (pp ++ [1]) op (sp ++ [1]) sop)
     (hs1 : s.kids[1]? = some sop) (hsl : s.kids[jl]? = some sjl) (hsr : s.kids[jr]? = some sjr)
     (hj : jl ≠ jr ∧ jl ≠ 1 ∧ jr ≠ 1)
     (hl : Good lm (pp ++ [0]) l (sp ++ [jl]) sjl) (hr : Good rm (pp ++ [2]) r (sp ++ [jr]) sjr)
@@ -760,17 +760,17 @@ theorem kidKind_one (l op r : T) : kidKind [l, op, r] 1 = op.kind := by
   simp [kidKind]
 
 /-- **Core of C10**: every map `deep_find_match` returns embeds the pattern node at the student node. -/
-theorem deep_good : ∀ (p : T), opLeaves p = true → ∀ (cm : Bool) (pp sp : Path) (s : T),
-    ∀ m ∈ deep cm pp p sp s, Good m pp p sp s := by
+theorem deep_good : ∀ (p : T), opLeaves p = true → ∀ (cm : Bool) (pf : String) (pp sp : Path) (s : T),
+    ∀ m ∈ deep cm pf pp p sp s, Good m pp p sp s := by
   intro p
   induction p using T.induct' with
   | h k f fl kids ih =>
-    intro hop cm pp sp s m hm
-    have hIH : ∀ c ∈ kids, ∀ cm pp sp s, ∀ m ∈ deep cm pp c sp s, Good m pp c sp s :=
+    intro hop cm pf pp sp s m hm
+    have hIH : ∀ c ∈ kids, ∀ cm pf pp sp s, ∀ m ∈ deep cm pf pp c sp s, Good m pp c sp s :=
       fun c hc => ih c hc (opLeaves_kids hop c hc)
     rw [deep.eq_def] at hm
     simp only at hm
-    cases hpre : deepPre cm pp (T.mk k f fl kids) sp s with
+    cases hpre : deepPre cm pf pp (T.mk k f fl kids) sp s with
     | done r =>
       simp only [hpre] at hm
       rcases deepPre_done hpre m hm with ⟨rfl, hr⟩ | ⟨name, rfl, hr⟩
@@ -778,7 +778,7 @@ theorem deep_good : ∀ (p : T), opLeaves p = true → ∀ (cm : Bool) (pp sp : 
       · exact good_expMap hr
     | generic ig =>
       simp only [hpre] at hm
-      cases hsh : shallowMatch cm pp (T.mk k f fl kids) sp s with
+      cases hsh : shallowMatch cm pf pp (T.mk k f fl kids) sp s with
       | none => simp [hsh] at hm
       | some b =>
         simp only [hsh] at hm
@@ -790,7 +790,7 @@ theorem deep_good : ∀ (p : T), opLeaves p = true → ∀ (cm : Bool) (pp sp : 
       match kids, hIH, hop, hpre, hflex, hm with
       | [l, op, r], hIH, hop, hpre, hflex, hm =>
         simp only at hm
-        cases hsh : shallowMatch false pp (T.mk k f fl [l, op, r]) sp s with
+        cases hsh : shallowMatch cm pf pp (T.mk k f fl [l, op, r]) sp s with
         | none => simp [hsh] at hm
         | some b =>
           simp only [hsh] at hm
@@ -805,7 +805,7 @@ theorem deep_good : ∀ (p : T), opLeaves p = true → ∀ (cm : Bool) (pp sp : 
           match hsk : s.kids, hm with
           | [sl, sop, sr], hm =>
             simp only at hm
-            cases hso : shallowMatch true (pp ++ [1]) op (sp ++ [1]) sop with
+            cases hso : shallowMatch true op.field (pp ++ [1]) op (sp ++ [1]) sop with
             | none => simp [hso] at hm
             | some o =>
               simp only [hso] at hm
@@ -816,11 +816,11 @@ theorem deep_good : ∀ (p : T), opLeaves p = true → ∀ (cm : Bool) (pp sp : 
               · obtain ⟨lm, hlm, rm, hrm, e, hc⟩ := binflexHelper_mem hm
                 exact good_binflex (jl := 0) (jr := 2) hkind hflex hopk hleaf sgb sgo
                   (by rw [hsk]; rfl) (by rw [hsk]; rfl) (by rw [hsk]; rfl) (by decide)
-                  (hIH l (by simp) _ _ _ _ lm hlm) (hIH r (by simp) _ _ _ _ rm hrm) e hc
+                  (hIH l (by simp) _ _ _ _ _ lm hlm) (hIH r (by simp) _ _ _ _ _ rm hrm) e hc
               · obtain ⟨lm, hlm, rm, hrm, e, hc⟩ := binflexHelper_mem hm
                 exact good_binflex (jl := 2) (jr := 0) hkind hflex hopk hleaf sgb sgo
                   (by rw [hsk]; rfl) (by rw [hsk]; rfl) (by rw [hsk]; rfl) (by decide)
-                  (hIH l (by simp) _ _ _ _ lm hlm) (hIH r (by simp) _ _ _ _ rm hrm) e hc
+                  (hIH l (by simp) _ _ _ _ _ lm hlm) (hIH r (by simp) _ _ _ _ _ rm hrm) e hc
           | [], hm => simp at hm
           | [_], hm => simp at hm
           | [_, _], hm => simp at hm
